@@ -6,7 +6,7 @@
 //               CAdd(x=c,y=v) CWait(x=c) CPost(x=c,y=v) Join(x=r) Create(x=r) Cancel(x=r)
 // Main ops    : Create(x=r,y=run_now) Resume(x=r) Cancel(x=r) Cleanup Pass Idle
 // Every script is interpreted by one REAL routine on a real Scheduler on a real Loop; the main script is interpreted by
-// an in-loop task that runs first in every loop pass.  Every step is logged (call / return value / received value), and
+// an in-loop task that runs last in every loop pass.  Every step is logged (call / return value / received value), and
 // whenever the loop has nothing left to run an "idle" event with the observable state of the primitives is logged.
 // The trace is validated by TLC against spec/Coroutine/Trace_Coroutine.tla; this program decides nothing.
 #include <vh.h>
@@ -116,10 +116,10 @@ static void do_cleanup() {
     L("{\"e\":\"mcl\",\"ph\":1}");
 }
 
-// runs once per loop pass, as the first deferred task of the pass
-static void tick() {
-    if (E->done) return;
-    E->loop->runNext([] { tick(); }, "c18 driver");
+// Runs once per loop pass, as the LAST deferred task of the pass: it re-posts itself when it returns, i.e. after every
+// schedule() call that the main operations of this tick or the routines of this pass have queued, so in the next pass
+// all of them run before the main context acts again ("Pass" = let the loop run everything queued so far).
+static bool tick_body() {
     if (E->activity == E->seen) ++E->quiet; else { E->quiet = 0; E->idle_logged = false; }
     E->seen = E->activity;
     // nothing ran and nothing was posted for two whole passes: the loop has nothing left to run
@@ -127,8 +127,8 @@ static void tick() {
     if (idle && !E->idle_logged) { log_idle(); E->idle_logged = true; }
     while (E->mpc < E->mainv.size()) {
         const Op &o = E->mainv[E->mpc];
-        if (o.op == "Pass") { ++E->mpc; return; }
-        if (o.op == "Idle") { if (!idle) return; ++E->mpc; continue; }
+        if (o.op == "Pass") { ++E->mpc; return true; }
+        if (o.op == "Idle") { if (!idle) return true; ++E->mpc; continue; }
         idle = false;
         const std::string head = "{\"e\":\"mop\",\"op\":\"" + o.op + "\",\"x\":" + S(o.x) + ",\"y\":" + S(o.y);
         if (o.op == "Create") { bool ok = do_create(o.x, o.y != 0); L(head + ",\"ret\":" + B(ok) + "}"); }
@@ -139,13 +139,18 @@ static void tick() {
         ++E->mpc;
     }
     // end of the main script: wait for idle, clean up (if the script did not), wait for idle again, stop
-    if (!idle) return;
+    if (!idle) return true;
     if (E->final_phase == 0) {
         E->final_phase = 1;
-        if (!E->cleaned) { do_cleanup(); return; }
+        if (!E->cleaned) { do_cleanup(); return true; }
     }
     E->done = true;
     E->loop->exitLoop();
+    return false;
+}
+static void tick() {
+    if (E->done) return;
+    if (tick_body()) E->loop->runNext([] { tick(); }, "c18 driver");
 }
 
 static void on_vtalrm(int) { vh::fault("hang", "execution used more than 5 s of CPU time (scheduler never became idle / cleanup() does not return)"); }
